@@ -29,7 +29,7 @@ def body(run):
     for k in range(run.scale(60, 1200)):
         family = rng.choice(['same', 'same', 'avg2', 'avg4'])
         nb = rng.choice([1, 1, 2, 3])
-        pair = st.make_compare_pair(run.work, rng, family, nbands=nb)
+        pair = st.make_compare_pair(run.work, rng, family, nbands=nb, signed=[None, None, 'neg', None, 'mixed', None][k % 6])
         sb = rb = None
         if nb >= 2 and rng.random() < 0.5:
             sb = rng.sample(range(1, nb + 1), rng.randint(1, nb))
@@ -46,7 +46,7 @@ def body(run):
                 mbm = 1e6
             else:
                 raise
-        desc = dict(family=family, geom=pair['geom'].describe(), src_encoding=pair['src_encoding'], ref_encoding=pair['ref_encoding'], bands=nb, src_bands=sb, ref_bands=rb, max_block_mem=mbm, threads=threads,
+        desc = dict(family=family, values=[None, None, 'neg', None, 'mixed', None][k % 6] or 'positive', geom=pair['geom'].describe(), src_encoding=pair['src_encoding'], ref_encoding=pair['ref_encoding'], bands=nb, src_bands=sb, ref_bands=rb, max_block_mem=mbm, threads=threads,
                     blocks=res['nblocks'], stats={k2: {f: float(v) for f, v in d.items()} for k2, d in res['stats'].items()})
         key = f'{family}/bands={nb}/blocks={"1" if res["nblocks"] == 1 else ">1"}'
         dist[key] = dist.get(key, 0) + 1
